@@ -4,6 +4,7 @@
 import DDV.Gen.AddrSem
 import DDV.Props.C05
 import DDV.Gen.Emit
+import DDV.Gen.Lemmas.Refs
 import DDV.Gen.Lemmas.Claimed
 
 namespace DDV.Props.C04
@@ -168,5 +169,31 @@ theorem read_all_reads_iff (m : Method) :
 
 /-- The emitted items are the visits, one to one and in the same order. -/
 theorem read_all_items (ms : List Method) : readAllJson ms = (readAllVisits ms).map readAllItem := rfl
+
+/-! ### Refs -/
+
+/-- **A ref uses its own overridden address and repeat while sharing its target's layout.** The
+    accessor lowered for a register ref is named after the ref, sits at the override's address
+    (else the target's) with the override's repeat (else the target's), and is typed with the
+    *target's* field set. -/
+theorem register_ref_address_and_layout (n : Names) (cfg : GlobalConfig) (all : List Object) (rf : RefObject)
+    (ov : RegisterOverride) (r : Register) (t : Integer) (fuel : Nat)
+    (hov : rf.override = .register ov) (ht : searchObject ov.name all = some (.register r))
+    (hc : cfg.registerAddressType = some t) :
+    ∃ m, getMethod n cfg all "new" (fuel + 2) (.ref rf) = .ok (m, []) ∧
+      m.name = n.method rf.name ∧ m.target = some r.name ∧ m.address = ov.address.getD r.address ∧
+      m.repeat_ = (match ov.repeat_ with | some x => some x | none => r.repeat_) := by
+  obtain ⟨m, h, h1, _, _, h4, h5, h6, _⟩ := register_ref_method n cfg all rf ov r t fuel hov ht hc
+  exact ⟨m, h, h1, h4, h5, h6⟩
+
+theorem command_ref_address (n : Names) (cfg : GlobalConfig) (all : List Object) (rf : RefObject)
+    (ov : CommandOverride) (c : Command) (t : Integer) (fuel : Nat)
+    (hov : rf.override = .command ov) (ht : searchObject ov.name all = some (.command c))
+    (hc : cfg.commandAddressType = some t) :
+    ∃ m, getMethod n cfg all "new" (fuel + 2) (.ref rf) = .ok (m, []) ∧
+      m.name = n.method rf.name ∧ m.address = ov.address.getD c.address ∧
+      m.repeat_ = (match ov.repeat_ with | some x => some x | none => c.repeat_) := by
+  obtain ⟨m, h, h1, _, _, h4, h5, _⟩ := command_ref_method n cfg all rf ov c t fuel hov ht hc
+  exact ⟨m, h, h1, h4, h5⟩
 
 end DDV.Props.C04
